@@ -260,6 +260,42 @@ func (ch *chaos) elect(fenceSet []*rc.Node) bool {
 		names = append(names, n.Name)
 	}
 	heads := map[string]rc.Head{}
+	if ch.prop == "C04" {
+		// a client keeps writing to the old leader while the fences go out (its writes are refused from the moment
+		// the leader is fenced; none may reach the log after the leader has answered)
+		if ln := ch.leaderNode(); ln != nil {
+			if lc, err := ln.Leader(); err == nil {
+				stop := make(chan struct{})
+				var wwg sync.WaitGroup
+				wwg.Add(1)
+				go func() {
+					defer wwg.Done()
+					for i := 0; ; i++ {
+						select {
+						case <-stop:
+							return
+						default:
+						}
+						seq := ch.writeSeq.Add(1)
+						lc.Write(context.Background(), &proto.WriteRequest{Shard: pb.Int64(0), Puts: []*proto.PutRequest{{Key: fmt.Sprintf("k%d", seq%17), Value: []byte(fmt.Sprintf("v%d-race", seq))}}},
+							concurrent.NewOnce(func(*proto.WriteResponse) {}, func(error) {}))
+						ch.r.Count("writes_racing_with_fences", 1)
+						if i%4 == 3 {
+							time.Sleep(50 * time.Microsecond)
+						}
+					}
+				}()
+				defer func() {
+					select {
+					case <-stop:
+					default:
+						close(stop)
+					}
+					wwg.Wait()
+				}()
+			}
+		}
+	}
 	for _, n := range fenceSet {
 		h := ch.c.Fence(ch.term, []*rc.Node{n})
 		for k, v := range h {
